@@ -183,6 +183,9 @@ DoOp(r) ==
     /\ fs' = f2
     /\ g' = [g EXCEPT !.snap = Forget(snap2), !.partial = part2 \ gone, !.owner = Forget(own2), !.torn = torn2 \ gone,
                       !.winners = Forget(@),
+                      \* (a mutating verb whose caller was aborted while it was in flight: whether it took
+                      \* effect is not known; the next projection of the directory is adopted)
+                      !.adopt = @ \/ r.res = "Abandoned",
                       !.calls = IF c.fn = "none" THEN @ ELSE Put(@, r.actor, c2)]
     /\ viol' = viol
           \cup UNION {V(x[1], x[2]) : x \in OpMonitors(r, c)}
